@@ -51,6 +51,10 @@ ASSUMPTIONS = [
     '"current" is read as "according to the last state CI fetched" (DESIGN C30): ground-truth changes after the last fetch are counted as races',
     'API errors on PUT merge are injected before the effect only (a merge that succeeds but reports an error is ambiguous for any client)',
     'required checks + CI\'s own context are the "reported checks" (DESIGN C30); non-required failing contexts are counted, not judged',
+    'GitHub\'s answer to an accepted PUT merge tells CI that the target commit it merged onto has been replaced (the response carries the new '
+    'commit): a later merge justified only by a test batch against such a commit is judged against the real target, not counted as a race',
+    'fault plans (vf/sim/fake_github.py plan_fault) fail requests before they have any effect; stray batch callbacks and retry presses reach CI '
+    'only through WatchedBranch.notify_batch_changed, as ci.ci.batch_callback_handler / retry_pr do (retry_pr\'s three statements are mirrored)',
 ]
 TRUSTED_BASE = ['vf/sim/fake_github.py (GitHub/batch/database/shell protocol fakes)', 'vf/sim/vloop.py']
 SHARDS = {'quick': 4, 'thorough': 16}
@@ -82,7 +86,7 @@ def FLOORS(tier):
     }
 
 
-FLOOR_OPP = 1
+FLOOR_OPP = 18
 
 
 AUTHORS = ['ehigham', 'chrisvittal', 'cjllanwarne']
@@ -711,3 +715,17 @@ def run(ctx):
 #   D5 (own) try_to_merge carries on after an accepted merge (no return, target sha kept)                        yes  merge/second-merge-without-refetching-target
 #   D6 (own) review_state != 'changes_requested' instead of == 'approved'                                        yes  review/not-approved-in-last-fetch
 #   D8 (own) pending checks tolerated (not any FAILURE instead of all SUCCESS)                                   yes  status/required-check-not-successful-in-last-fetch, batch/not-successful
+#
+# Wave "train" (seeded/C30-agent6: try_to_merge no longer forgets the target sha after an accepted merge).  Not caught before: the
+#   clause "ran against the target's CURRENT commit / at most one merge per target update" was only reachable through fault-free orders; the
+#   break needs (i) a second PR green against the commit CI has just merged onto, (ii) the refresh right after that merge failing at the ref
+#   fetch, (iii) an update that does not refresh GitHub (batch callback, retry press) before the next refresh.  In 280 random histories
+#   (i)+(ii)+(iii) never coincided (API errors are independent per call, PRs are opened one at a time, the window is <= 300 s).
+#   Added: phase "train" (gen_train_config: bursts of PRs tested together, event-anchored fault plans at the fake GitHub, stray callbacks,
+#   retry presses, lossy merge webhooks), the told-target clause of judge() and judge_history(), counters + floors for (ii), (iii) and
+#   (i)+(ii)+(iii) (`second_merge_opportunities_on_consumed_target`, observation only: ground truth at each try_to_merge).
+#   D9 (seeded C30-agent6) `self.sha = None` dropped after an accepted merge                                    yes  batch/tested-against-a-target-commit-ci-had-already-merged-onto,
+#        merge/more-than-one-merge-on-one-observed-target-commit, merge/second-merge-without-refetching-target (quick seed 0: 20 of 480 train histories)
+#   Unchanged tree: quick seeds 0..4 and thorough seeds 0..2 silent; quick seed 0 reaches the opportunity in 44 of 480 train histories.
+#   A false alarm of the first draft of the new clause (a PR that also had an older successful batch against a consumed commit, merged on its
+#   newer batch against the fetched target) was an oracle error: any successful batch against the real or the told target commit justifies.
